@@ -1045,6 +1045,10 @@ decl(struct scope *s, struct func *f)
 			if (align && align < t->align)
 				error(&tok.loc, "object '%s' requires alignment %d, which is stricter than specified alignment %d", name, t->align, align);
 			d = declcommon(s, kind, name, asmname, t, tq, sc, prior);
+#ifdef CPROC_VERIF
+			vtrace("{\"e\":\"decl\",\"name\":\"%s\",\"s\":\"%p\",\"kind\":\"obj\",\"sc\":%d,\"inl\":0,\"asm\":%d,\"prior\":%d,\"link\":%d,\"d\":\"%p\"}",
+				name, (void *)s, (int)sc, asmname != NULL, prior != NULL, (int)d->linkage, (void *)d);
+#endif
 			if (d->u.obj.align < align)
 				d->u.obj.align = align;
 			if (d->linkage == LINKNONE && !(sc & SCSTATIC)) {
@@ -1068,16 +1072,28 @@ decl(struct scope *s, struct func *f)
 				init = parseinit(s, d->type);
 				hasinit = true;
 			} else if (sc & SCEXTERN) {
+#ifdef CPROC_VERIF
+				vtrace("{\"e\":\"declend\",\"d\":\"%p\",\"def\":0,\"defined\":%d,\"tent\":%d,\"inldef\":0,\"stor\":%d}", (void *)d, d->defined, d->tentative, (int)d->u.obj.storage);
+#endif
 				break;
 			} else if (d->linkage != LINKNONE && d->u.obj.storage == SDSTATIC) {
 				if (!d->defined && !d->tentative) {
 					d->tentative = true;
 					*tentativedefnsend = d;
 					tentativedefnsend = &d->next;
+#ifdef CPROC_VERIF
+					vtrace("{\"e\":\"tent\",\"d\":\"%p\"}", (void *)d);
+#endif
 				}
+#ifdef CPROC_VERIF
+				vtrace("{\"e\":\"declend\",\"d\":\"%p\",\"def\":0,\"defined\":%d,\"tent\":%d,\"inldef\":0,\"stor\":%d}", (void *)d, d->defined, d->tentative, (int)d->u.obj.storage);
+#endif
 				break;
 			}
 			defineobj(d, init, hasinit, f);
+#ifdef CPROC_VERIF
+			vtrace("{\"e\":\"declend\",\"d\":\"%p\",\"def\":%d,\"defined\":%d,\"tent\":%d,\"inldef\":0,\"stor\":%d}", (void *)d, hasinit, d->defined, d->tentative, (int)d->u.obj.storage);
+#endif
 			break;
 		case DECLFUNC:
 			if (align)
@@ -1088,6 +1104,10 @@ decl(struct scope *s, struct func *f)
 			d->value = mkglobal(d);
 			d->u.func.inlinedefn = d->linkage == LINKEXTERN && fs & FUNCINLINE && !(sc & SCEXTERN) && (!prior || prior->u.func.inlinedefn);
 			d->u.func.isnoreturn = fs & FUNCNORETURN;
+#ifdef CPROC_VERIF
+			vtrace("{\"e\":\"decl\",\"name\":\"%s\",\"s\":\"%p\",\"kind\":\"func\",\"sc\":%d,\"inl\":%d,\"asm\":%d,\"prior\":%d,\"link\":%d,\"d\":\"%p\"}",
+				name, (void *)s, (int)sc, (fs & FUNCINLINE) != 0, asmname != NULL, prior != NULL, (int)d->linkage, (void *)d);
+#endif
 			if (tok.kind == TLBRACE) {
 				if (!allowfunc)
 					error(&tok.loc, "function definition not allowed");
@@ -1106,10 +1126,16 @@ decl(struct scope *s, struct func *f)
 				s = delscope(s);
 				delfunc(f);
 				d->defined = true;
+#ifdef CPROC_VERIF
+				vtrace("{\"e\":\"declend\",\"d\":\"%p\",\"def\":2,\"defined\":%d,\"tent\":0,\"inldef\":%d,\"stor\":0}", (void *)d, d->defined, d->u.func.inlinedefn);
+#endif
 				return true;
 			} else if (funcscope) {
 				delscope(funcscope);
 			}
+#ifdef CPROC_VERIF
+			vtrace("{\"e\":\"declend\",\"d\":\"%p\",\"def\":0,\"defined\":%d,\"tent\":0,\"inldef\":%d,\"stor\":0}", (void *)d, d->defined, d->u.func.inlinedefn);
+#endif
 			break;
 		}
 		if (consume(TSEMICOLON))
@@ -1147,6 +1173,9 @@ emittentativedefns(void)
 {
 	struct decl *d;
 
+#ifdef CPROC_VERIF
+	vtrace("{\"e\":\"eot\"}");
+#endif
 	for (d = tentativedefns; d; d = d->next) {
 		if (!d->defined)
 			defineobj(d, NULL, false, NULL);
